@@ -5,3 +5,5 @@ d=$1; p=$2; tier=${3:-quick}
 cd /repo && git apply "$d/patch.diff" || { echo "PATCH DOES NOT APPLY"; exit 2; }
 cd /verif && ./check $p $tier 2>&1 | grep -E "VIOLATION|KNOWN-FINDING|OBLIGATION FAILED|tier=" | cut -c1-300 | head -20
 cd /repo && git checkout -- . && git status --short | head -3
+# regenerate the OcppGen modules for the restored tree (they were regenerated from the patched tree above)
+/verif/bin/extract > /dev/null 2>&1; [ -x /verif/bin/reggen ] && /verif/bin/reggen > /dev/null 2>&1
